@@ -58,7 +58,7 @@ Proof.
   rewrite enc_blocks_res_bands in Hc. apply in_flat_map in Hc. exact Hc.
 Qed.
 
-Lemma in_all_blocks : forall r cb, In (r, cb) (enc_blocks p d) -> In cb (enc_all_blocks d w h 0 0 L cbw cbh).
+Lemma in_all_blocks : forall r cb, In (r, cb) (enc_blocks p d) -> In cb (enc_all_blocks d w h (pp_x0 p) (pp_y0 p) L cbw cbh).
 Proof.
   intros r cb H. unfold enc_blocks in H. apply in_flat_map in H as [r' [Hr' H]].
   apply in_map_iff in H as [c [E Hc]]. injection E as -> ->.
@@ -71,7 +71,7 @@ Lemma block_facts : forall r cb, In (r, cb) (enc_blocks p d) ->
 Proof.
   intros r cb Hin. destruct (in_enc_blocks r cb Hin) as [Hr [b [Hb Hcb]]].
   destruct (wh_range p Hsc) as (Hw & Hh & HL). destruct (cb_range p Hsc) as [Cw Ch]. fold w h L in Hw, Hh, HL. fold cbw cbh in Cw, Ch.
-  pose proof (encs_good w h 0 0 L cbw cbh ltac:(lia) ltac:(lia) ltac:(lia) ltac:(lia) d Hlen cb (in_all_blocks r cb Hin))
+  pose proof (encs_good w h (pp_x0 p) (pp_y0 p) L cbw cbh ltac:(lia) ltac:(lia) ltac:(lia) ltac:(lia) d Hlen cb (in_all_blocks r cb Hin))
     as (G1 & G2 & G3 & G4 & G5 & G6 & G7).
   assert (Hband : cb_band cb = b_id b) by (apply (partition_band _ _ _ _ _ Hcb)).
   assert (Hbo : In (b_id b) (band_order r)) by (rewrite <- (rbands_ids p r); apply in_map; exact Hb).
